@@ -307,8 +307,8 @@ pub fn hostile_line(rng: &mut gen::R) -> (String, bool) {
         2 => (format!("position startpos moves e2e4 {} e7e5", tok(rng)), true),
         3 => (format!("position fen {}", grammar_fen(rng).replace(['\n', '\r'], " ")), true),
         4 => (format!("position fen {} moves {}", grammar_fen(rng).replace(['\n', '\r'], " "), tok(rng)), true),
-        5 => (format!("go depth {}", ["-1", "99999999999999999999999", "x", "", "1.5", "١"][rng.gen_range(0..6)]), false),
-        6 => (format!("go movetime {}", ["-5", "99999999999999999999", "abc", "", "2147483648"][rng.gen_range(0..5)]), false),
+        5 => (format!("go depth {}", ["-1", "0", "18446744073709551615", "99999999999999999999999", "x", "", "1.5", "١"][rng.gen_range(0..8)]), false),
+        6 => (format!("go movetime {}", ["-5", "-1", "-2147483648", "2147483647", "99999999999999999999", "abc", "", "2147483648", "0"][rng.gen_range(0..9)]), false),
         7 => (["", " ", "\t", "position", "position fen", "position moves", "uci uci", ".status", "setoption name Hash value 99999999", "position startpos moves", "debug on", "ponderhit"][rng.gen_range(0..12)].to_string(), true),
         8 => {
             // well-formed FEN with extreme counters followed by legal moves
@@ -331,7 +331,13 @@ fn process_level(ctx: &Ctx, bin: &str, label: &str, rep: &mut Report) {
         for _ in 0..rng.gen_range(3..12) {
             let (line, resync) = hostile_line(&mut rng);
             if let Some(spec) = line.strip_prefix("go ") {
-                // a go with a bad argument still starts a search (with defaults): it is a go for the automaton
+                // a go with a bad argument still starts a search (with defaults): it is a go for the automaton.
+                // From the start position the opening book answers before any search is set up, so most
+                // hostile go lines are sent on a position outside the book
+                if rng.gen_bool(0.7) {
+                    let fen = ["4k3/8/8/8/8/8/4P3/4K3 w - - 0 1", "r1bq1rk1/pp2bppp/2n1pn2/2pp4/3P1B2/2PBPN2/PP1N1PPP/R2QK2R w KQ - 2 8", "8/2p5/3p4/KP5r/1R3p1k/8/4P1P1/8 w - - 0 1"][rng.gen_range(0..3)];
+                    script.push(Cmd::Position { fen: Some(fen.into()), moves: vec![] });
+                }
                 script.push(Cmd::Go { spec: spec.to_string(), wait: false });
                 script.push(Cmd::IsReady);
                 script.push(Cmd::Stop);
@@ -348,13 +354,15 @@ fn process_level(ctx: &Ctx, bin: &str, label: &str, rep: &mut Report) {
         script.push(Cmd::Position { fen: Some("4k3/8/8/8/8/8/4P3/4K3 w - - 0 1".into()), moves: vec![] });
         script.push(Cmd::Go { spec: "depth 1".into(), wait: true });
         script.push(Cmd::Quit);
-        let s = match Session::new(bin, &[]) {
+        let mut s = match Session::new(bin, &[]) {
             Ok(s) => s,
             Err(e) => {
                 rep.inconclusive(&format!("cannot start {}: {}", bin, e));
                 return;
             }
         };
+        // the property asks for liveness after a hostile line, not for an answer to a malformed go
+        s.lenient = true;
         let out = s.run(&script);
         rep.count(&format!("hostile_lines_{}", label), script.iter().filter(|c| matches!(c, Cmd::Raw(_)) || matches!(c, Cmd::Go { wait: false, .. })).count() as u64);
         // which line killed it? the last Raw before the log ends
